@@ -1185,10 +1185,40 @@ class Explorer:
             self._add(lift_bool(cond))
         return ok
 
-    def prove(self, cond, label, info=None, using=None, soft=False):
+    def prove(self, cond, label, info=None, using=None, soft=False, abstract=None):
         """obligation: under the current path condition `cond` holds for all values.
         using=[facts]: modular step - first try to derive cond from these facts alone (each must already be part of the
         path condition or a proved lemma; weakening the hypotheses is sound for an unsat answer)"""
+        if abstract is not None and not isinstance(cond, bool):
+            # generalisation step: the listed sub-terms are replaced by fresh variables; if the obligation holds for all values
+            # of those variables (given `using`), it holds in particular for the terms themselves
+            subs = []
+            for k_, a_ in enumerate(abstract):
+                if isinstance(a_, (R, I)):
+                    subs.append((a_.t, z3.Real('abs!%d' % k_) if isinstance(a_, R) else z3.Int('abs!%d' % k_)))
+            goal = z3.substitute(lift_bool(cond), *subs) if subs else lift_bool(cond)
+            hyps = [z3.substitute(lift_bool(u), *subs) for u in (using or []) if not isinstance(u, bool)] if subs else [lift_bool(u) for u in (using or []) if not isinstance(u, bool)]
+            t0 = time.time()
+            r = 'unknown'
+            for mk, tmo in ((z3.Solver, 1000), (lambda: z3.SolverFor('QF_NRA'), self.timeout_ms)):
+                try:
+                    s2 = mk()
+                    s2.set('timeout', tmo)
+                    s2.add(*hyps)
+                    s2.add(z3.Not(goal))
+                    r = str(s2.check())
+                except z3.Z3Exception:
+                    r = 'unknown'
+                if r == 'unsat':
+                    break
+            dt = time.time() - t0
+            self.stats.solver_s += dt
+            self.stats.label_s[label] = self.stats.label_s.get(label, 0.0) + dt
+            if r == 'unsat':
+                self.stats.q_unsat += 1
+                self.stats.proved[label] = self.stats.proved.get(label, 0) + 1
+                return True
+            using = None
         if using is not None and not isinstance(cond, bool):
             t0 = time.time()
             r = 'unknown'
@@ -1502,7 +1532,7 @@ class FloatCtx:
     def lemma(self, cond, label, using=None):
         return self.prove(cond, 'lemma:' + label)
 
-    def prove(self, cond, label, info=None, using=None, soft=False):
+    def prove(self, cond, label, info=None, using=None, soft=False, abstract=None):
         if bool(cond):
             self.passed.append(label)
             return True
